@@ -14,7 +14,9 @@ counted in the histogram.
 Presentation and history hardening: labels are arbitrary hashables chosen by a recipe (None, 0, '', (),
 frozenset(), floats, tuples, numeric-looking strings …) while Lean keeps receiving small integers; node
 iterables and neighbour results come in every Iterable style (list, tuple, generator, iter, map, reversed,
-dict views, the caller's own list object); `history` cases make 2-4 consecutive rounds of
+dict views, the caller's own list object, and LIVE views - `defaultdict(list).keys()` / the dict itself whose
+callback auto-inserts missing keys, a set the callback adds to, a list the callback appends to - judged on
+the node collection at call time, a RuntimeError there being `raises:RuntimeError:live_view`); `history` cases make 2-4 consecutive rounds of
 scc/topological_sort/condense (in varying order) inside one worker call, with ONE neighbour-function object
 over ONE adjacency dict and ONE node list that are edited in place between the rounds (the _edges variants:
 one edge list with aliased tuples); every round is judged on its own input, and a failure that disappears when
@@ -184,6 +186,27 @@ def gen_graph(rng, big: bool):
     if rng.random() < 0.3:
         relabel_odd(rng, case)
     return case
+
+
+LIVE_STYLES = ["live_keys", "live_dict", "live_set", "live_list_append"]
+
+
+def gen_live(rng, big: bool):
+    """The `graph = defaultdict(list); nodes = graph.keys(); neighbors = lambda n: graph[n]` idiom: the node
+    collection is a LIVE view that grows during the call (leaves occurring only as edge targets are
+    auto-inserted by the callback; or the callback adds to the set / appends to the list passed as `nodes`).
+    The graph meant is the node collection at call time (snapshot taken by the harness) + the callback's answers."""
+    for _ in range(20):
+        c = gen_graph(rng, big)
+        nodeset = set(c["nodes"])
+        # outside vertices are pure leaves in this idiom: no entries of their own
+        c["table"] = [e for e in c["table"] if e[0] in nodeset]
+        if any(w not in nodeset for e in c["table"] for w in e[1]) or rng.random() < 0.1:
+            break
+    c["missing"] = "empty"
+    c["live"] = rng.choice(LIVE_STYLES)
+    c["nodes_style"] = c["live"]
+    return c
 
 
 def relabel_odd(rng, case):
@@ -530,8 +553,49 @@ def impl(case):
     ids = {lab(v): i for i, v in enumerate(universe(case))}
     table = {lab(e[0]): [lab(w) for w in e[1]] for e in case["table"]}
     node_list = [lab(v) for v in case["nodes"]]
+    if case.get("live"):
+        return _live_round(S, case["live"], node_list, table, case["nbr_style"], ids)
     nb = _make_nb(table, case["missing"], case["nbr_style"])
     return _round(S, lambda: present(case["nodes_style"], node_list), nb, ids, ["scc", "topo", "cond"])
+
+
+def _live_round(S, live, node_list, table, nstyle, ids):
+    """Every call gets a freshly built live collection (so each call starts from the same node set); the
+    harness snapshots it right before the call - that snapshot is the node list the result is judged on."""
+    from collections import defaultdict
+    cur = {}
+    snaps = []
+
+    def nodes_fn():
+        if live in ("live_keys", "live_dict"):
+            g = defaultdict(list)
+            for v in node_list:
+                g[v] = list(table.get(v, []))
+            cur["g"] = g
+            coll = g.keys() if live == "live_keys" else g
+        elif live == "live_set":
+            coll = cur["s"] = set(node_list)
+        else:
+            coll = cur["l"] = list(node_list)
+        snaps.append([ids[x] for x in coll])  # the node collection AT CALL TIME
+        return coll
+
+    def nb(v):
+        if live in ("live_keys", "live_dict"):
+            lst = cur["g"][v]  # auto-inserts a missing key: the view changes size during the call
+        else:
+            lst = table.get(v, [])
+            for w in lst:
+                if live == "live_set":
+                    cur["s"].add(w)
+                elif w not in cur["l"]:
+                    cur["l"].append(w)
+        return present(nstyle, list(lst))
+
+    out = _round(S, nodes_fn, nb, ids, ["scc", "topo", "cond"], twice=False)
+    out["snapshot"] = snaps[0] if snaps else []
+    out["snapshots_equal"] = all(sn == snaps[0] for sn in snaps)
+    return out
 
 
 def units(case, out):
@@ -559,6 +623,8 @@ def to_request(case, out):
             if v not in seen:
                 seen.add(v)
                 nodes.append(ids[v])
+        if case.get("live") and out is not None and "snapshot" in out:
+            nodes = list(out["snapshot"])  # live collection: the order the harness saw at call time
         tab = [[ids[e[0]], [ids[w] for w in e[1]]] for e in case["table"]]
     scc = topo = cond = None
     if out is not None:
@@ -590,6 +656,12 @@ def failures(case, out, reply):
     keyerr = case.get("missing") == "keyerror"
     dup = bool(case.get("dup"))
     tag = "" if closed else ":outside"
+    live = case.get("live")
+    if live:
+        counts.append("live_view:" + live + (":grows_during_call" if not closed else ":stable"))
+        if not r.get("snapshots_equal", True):
+            raise core.Infra("live-view case: the harness built different node collections for the three calls")
+    etag = ":live_view" if live else tag  # class suffix of `raises:` failures
     counts.append("closed" if closed else "outside_neighbours")
     if not closed and case["kind"] == "graph":
         nodeset = set(case["nodes"])
@@ -611,7 +683,7 @@ def failures(case, out, reply):
         if keyerr and s["error"].startswith("KeyError"):
             counts.append("outside_keyerror:scc_raises")  # neighbour function undefined outside: not judged
         else:
-            fails.append((fn, "raises:" + s["error"].split(":")[0] + tag, "valid input raised: " + s["error"]))
+            fails.append((fn, "raises:" + s["error"].split(":")[0] + etag, "valid input raised: " + s["error"]))
     else:
         counts.append(f"scc:{len(s['sol'])}_components" if len(s["sol"]) < 4 else "scc:>=4_components")
         if s["status"] != "OPTIMAL":
@@ -632,7 +704,7 @@ def failures(case, out, reply):
         if keyerr and t["error"].startswith("KeyError"):
             counts.append("outside_keyerror:topo_raises")
         else:
-            fails.append((fn, "raises:" + t["error"].split(":")[0] + tag, "valid input raised: " + t["error"]))
+            fails.append((fn, "raises:" + t["error"].split(":")[0] + etag, "valid input raised: " + t["error"]))
     elif dup:
         counts.append("dup_nodes:topo:" + t["status"])  # duplicates in the node iterable: not judged
     else:
@@ -662,7 +734,7 @@ def failures(case, out, reply):
             if keyerr and c["error"].startswith("KeyError"):
                 counts.append("outside_keyerror:condense_raises")
             else:
-                fails.append((fn, "raises:" + c["error"].split(":")[0] + tag, "valid input raised: " + c["error"]))
+                fails.append((fn, "raises:" + c["error"].split(":")[0] + etag, "valid input raised: " + c["error"]))
         else:
             if c["status"] != "OPTIMAL":
                 fails.append((fn, "bad_status", f"status {c['status']}"))
@@ -875,6 +947,8 @@ def run(ctx, budget):
             cases.append(gen_edges(ctx.rng, big and i % 3 == 0))
         elif r == 9 and i % 50 == 9:
             cases.append(gen_dup(ctx.rng))
+        elif r == 6 and i % 20 == 6:  # fixed share: live views of a defaultdict / set / list that grow during the call
+            cases.append(gen_live(ctx.rng, big and i % 3 == 0))
         elif r == 7:  # fixed share: call histories (graph rounds / edge-list rounds)
             cases.append(gen_ehistory(ctx.rng) if i % 40 == 7 else gen_history(ctx.rng))
         else:
